@@ -36,7 +36,7 @@ RULE = ('structured generator: models over every span type (range, list of int /
         'big ints; tuple; NumPy int / str arrays; pandas Index, PeriodIndex Y / Q, DatetimeIndex), lengths 0..5 (quick) / 0..7 (thorough), model '
         'dtype float / int / bool / str, 0..4 class variables with and without leading underscores (also "_" alone, "__x", "x_"), '
         '0..3 runtime-added variables of every dtype, written status / iterations or really solved models, all 8 flag combinations, '
-        'round-trip classes (same NAMES, permuted, extended, reduced; every dtype=; strict / non-strict; default values); every name set x '
+        'round-trip classes inside the guard (class lists every exported variable, dtype= equal to the series dtype / object / exactly representable float; about half of the export cases) and outside it (permuted, extended, reduced, duplicated NAMES; every dtype=; strict / non-strict; default values: K only); every name set x '
         'every flag combination x every model dtype on a two-period span; hand-edited names lists (duplicates, status / iterations, '
         'unknown names: malformed stream, K only); plain VectorContainers and VectorContainer.to_dataframe on model objects; linkers with '
         '0..3 submodels keyed by str / int (incl. a key equal to the linker name); symbol lists from parsed C01-grammar scripts and '
@@ -900,6 +900,43 @@ def oracle_table(pre, table, flags, site, fails):
             bad('dtype', 'not-preserved', 'column %s of a %s series has dtype %s' % (name, d, dtype))
 
 
+def rt_class(case, o):
+    """(NAMES, dtype) of the class from_dataframe is called on: the case's `cls`, else the model's own class with the default dtype."""
+    cl = case.get('cls')
+    if cl:
+        return list(cl['names']), cl.get('dtype') or 'float', cl
+    names = list(case['names']) if case['kind'] == 'export' else list(o['pre']['names'])
+    return names, 'float', {'default': None, 'strict': False}
+
+
+def in_rt_guard(case, o):
+    """The round-trip clause speaks about calls inside the documented contract of from_dataframe (names and dtype come from the
+    class and the call): the class lists every exported data column (duplicate-free NAMES), strict only for data-only tables, and
+    for every exported series the dtype asked for equals the series dtype, or is object, or is float with values float64 holds
+    exactly (floats, bools, ints of magnitude <= 2^53).  Outside it only K speaks (the model mirrors the code there too)."""
+    if case['kind'] not in ('export', 'solved') or case.get('tamper') or 'rt' not in o or 'raise' in o.get('table', {'raise': 1}):
+        return False
+    names, dtype, cl = rt_class(case, o)
+    data_cols = [c for c in o['table']['cols'] if c[0] not in ('status', 'iterations')]
+    if len(set(names)) != len(names) or 'status' in names or 'iterations' in names:
+        return False
+    if not all(c[0] in names for c in data_cols):
+        return False
+    if cl.get('strict') and (case['flags'][0] or case['flags'][1]):
+        return False
+    if cl.get('default') is not None and not all(nm in [c[0] for c in data_cols] for nm in names):
+        return False
+    sdt = {kk: d for kk, d, _ in o['pre']['vars']}
+    for name, _, cells in data_cols:
+        d = sdt[name]
+        if dtype == d or dtype == 'object':
+            continue
+        if dtype == 'float' and d in ('float', 'int', 'bool') and all(c[0] != 'i' or abs(c[1]) <= 2 ** 53 for c in cells):
+            continue
+        return False
+    return True
+
+
 def oracle(case, o):
     fails = []
     k = case['kind']
@@ -913,17 +950,11 @@ def oracle(case, o):
             return fails                          # a hand-edited names list is outside the property's models: K only
         pre = o['pre']
         oracle_table(pre, o['table'], case['flags'], 'to_dataframe', fails)
-        cl = case.get('cls')
-        natural = cl is None or (cl['names'] == case.get('names') and cl.get('dtype') in (None, case.get('dtype')) and cl.get('default') is None
-                                 and not (cl.get('strict') and (case['flags'][0] or case['flags'][1] or case.get('extra'))))
-        # strict=True documents an InitialisationError for columns outside NAMES: such calls are not "the data columns" of the class
-        if natural and 'rt' in o and 'raise' not in o['table']:
+        if in_rt_guard(case, o):
             rt = o['rt']
             data_cols = [c for c in o['table']['cols'] if c[0] not in ('status', 'iterations')]
             if 'raise' in rt:
-                dts = sorted({d for kk, d, _ in pre['vars'] if any(kk == c[0] for c in data_cols)})
-                clause = 'str-series' if 'str' in dts else 'dtype-' + '+'.join(dts)
-                bad('from_dataframe', clause, rt['raise'], 'from_dataframe of the exported table raised %s (series dtypes %s)' % (rt['raise'], dts))
+                bad('from_dataframe', 'roundtrip', rt['raise'], 'from_dataframe of the exported table raised %s inside the round-trip guard' % rt['raise'])
             else:
                 if len(rt['span']['labels']) != len(pre['span']['labels']) or not all(
                         a == b or values_equal(a, b) for a, b in zip(rt['span']['labels'], o['table']['index']['labels'])):
@@ -931,14 +962,9 @@ def oracle(case, o):
                 new = {kk: cs for kk, _, cs in rt['vars']}
                 for name, _, cells in data_cols:
                     if name not in new:
-                        bad('from_dataframe', 'column-not-in-NAMES', 'dropped', 'column %s of the export is not a variable of the new model' % name)
+                        bad('from_dataframe', 'variable', 'missing', 'column %s of the export (a NAME of the class) is not a variable of the new model' % name)
                     elif len(new[name]) != len(cells) or not all(values_equal(a, b) for a, b in zip(new[name], cells)):
-                        wrong = [(a, b) for a, b in zip(cells, new[name]) if not values_equal(a, b)]
-                        if wrong and all(a[0] == 'i' and abs(a[1]) > 2 ** 53 and b[0] == 'fi' for a, b in wrong):
-                            bad('from_dataframe', 'int-beyond-2^53', 'rounded-through-float64',
-                                'integer variable %s: %s became %s' % (name, wrong[0][0], wrong[0][1]))
-                        else:
-                            bad('from_dataframe', 'values', 'not-reproduced', 'variable %s: %s became %s' % (name, cells[:6], new[name][:6]))
+                        bad('from_dataframe', 'values', 'not-reproduced', 'variable %s: %s became %s' % (name, cells[:6], new[name][:6]))
         return fails
     if k == 'container':
         pre = {'span': {'labels': o['labels']}, 'names': [v[0] for v in o['index']], 'vars': o['index'], 'status': ['str', []], 'iterations': ['int', []]}
@@ -1017,8 +1043,9 @@ def bucket(case, o):
     if k in ('export', 'solved'):
         rt = o.get('rt')
         t = o.get('table', {})
-        return '%s/%s/%s/export=%s/rt=%s' % (k + ('-tampered' if case.get('tamper') else ''), case['span']['type'], case.get('dtype', 'float'),
-                                             t['raise'] if 'raise' in t else 'ok', 'none' if rt is None else rt['raise'] if 'raise' in rt else 'ok')
+        return '%s/%s/%s/export=%s/rt=%s/%s' % (k + ('-tampered' if case.get('tamper') else ''), case['span']['type'], case.get('dtype', 'float'),
+                                                t['raise'] if 'raise' in t else 'ok', 'none' if rt is None else rt['raise'] if 'raise' in rt else 'ok',
+                                                'in-guard:' + rt_class(case, o)[1] if in_rt_guard(case, o) else 'outside-guard')
     if k == 'container':
         return 'container/%s/%s' % ('model' if case.get('model') else 'vc', case['span']['type'])
     if k == 'linker':
@@ -1137,10 +1164,22 @@ def gen_export(rng, spec, full):
         iters = [['i', rng.choice([-1, 0, 1, 5, 100])] for _ in range(n)]
     flags = [rng.random() < 0.5, rng.random() < 0.5, rng.random() < 0.5]
     r = rng.random()
-    if r < 0.45:
+    allnames = names + [e[0] for e in extra]
+    if r < 0.15:
         cls = None
+    elif r < 0.6:
+        # inside the round-trip guard: the class lists every variable, dtype= matches the series (object / float where they differ)
+        dts = ({dt} if names else set()) | {e[1] for e in extra} or {dt}
+        if len(dts) == 1:
+            cd = rng.choice([next(iter(dts)), next(iter(dts)), 'object'])
+        else:
+            cd = rng.choice(['object', 'object', 'float' if 'str' not in dts else 'object'])
+        if cd == 'float' and rng.random() < 0.5:
+            cd = None                                                    # the class default
+        data_only = not (flags[0] or flags[1])
+        cls = {'names': allnames if rng.random() < 0.7 else rng.sample(allnames, len(allnames)), 'dtype': cd, 'default': None,
+               'strict': data_only and rng.random() < 0.5}
     else:
-        allnames = names + [e[0] for e in extra]
         pick = rng.choice(['same', 'same', 'all', 'perm', 'less', 'more', 'dup', 'status'])
         cn = {'same': names, 'all': allnames, 'perm': rng.sample(allnames, len(allnames)), 'less': allnames[1:],
               'more': allnames + ['N1', '_N2'], 'dup': allnames + allnames[:1], 'status': names + ['status']}[pick]
